@@ -191,6 +191,7 @@ def run_charmm():
         seq, mol, att, silently, annotated, use_repair = charmm_case(rng, ff)
         resid0 = {k: mol.nodes[k]['resid'] for k in mol.nodes}
         status = 'ok'
+        known = []
         spec, qmaps, run = None, None, None
         flagged = []
         try:
@@ -219,7 +220,8 @@ def run_charmm():
                                for it in run['iters']))
             ln = proto_line(spec, given, sortmods)
             impl = impl_canon(spec, mods, mol, trun, sortmods)
-            errs += oracle(spec, mods, mol0, mol, run)
+            gen_errs, known = split_f6(oracle(spec, mods, mol0, mol, run), f6_atoms(spec, mol, run))
+            errs += gen_errs
             warned = set()
             for w in warnings_of(run):
                 if w['type'] == 'unknown-input' and w['name'].startswith('vermouth') and w['level'] == logging.WARNING:
@@ -289,12 +291,12 @@ def run_charmm():
         for a in att:
             chk.count('charmm_' + (a['mod'] or 'unknown') + ('_annotated' if a.get('annot') else '')
                       + ('_removed_by_repair_graph' if a.get('silent') else ''))
-        rows.append(('charmm-%d' % i, ln, impl, errs, bool(att), run is not None and status == 'ok'))
+        rows.append(('charmm-%d' % i, ln, impl, errs, bool(att), run is not None and status == 'ok', known))
     models = chk.drv.ask([r[1] for r in rows if r[5]]) if chk.lean_ok else []
     mi = iter(models)
-    for cid, ln, impl, errs, nontriv, has_model in rows:
+    for cid, ln, impl, errs, nontriv, has_model, known in rows:
         model = next(mi, None) if has_model and chk.lean_ok else None
-        chk.case(cid, ln, impl, model, errs, nontriv)
+        case_f6(cid, ln, impl, model, errs, known, nontriv)
 
 
 run_charmm()
